@@ -225,7 +225,8 @@ Definition check_path (s : bstr) : bool := check_path_items (split_on SLASH s).
 
 (* r_scheme: the first eight bytes as written ("rsync://" in any letter case) *)
 Record rsync_uri := { r_scheme : bstr; r_auth : bstr; r_mod : bstr; r_path : bstr }.
-Record https_uri := { h_auth : bstr; h_path : bstr }.   (* h_path is empty or starts with '/' *)
+(* h_scheme: the first eight bytes as written; h_path is empty or starts with '/' *)
+Record https_uri := { h_scheme : bstr; h_auth : bstr; h_path : bstr }.
 
 (* Rsync::from_bytes *)
 Definition rsync_parse (s : bstr) : option rsync_uri :=
@@ -249,8 +250,8 @@ Definition https_parse (s : bstr) : option https_uri :=
   else if negb (starts_with_ignore_case s (bytes_of "https://")) then None
   else let t := skipn 8 s in
     match cut_at SLASH t with
-    | (a, Some p) => Some {| h_auth := a; h_path := SLASH :: p |}
-    | (a, None) => Some {| h_auth := a; h_path := [] |}
+    | (a, Some p) => Some {| h_scheme := firstn 8 s; h_auth := a; h_path := SLASH :: p |}
+    | (a, None) => Some {| h_scheme := firstn 8 s; h_auth := a; h_path := [] |}
     end.
 
 (* canonical_authority(): ASCII letters lowered *)
@@ -271,3 +272,154 @@ Definition rsync_eqv (u v : rsync_uri) : Prop :=
   lower (r_auth u) = lower (r_auth v) /\ r_mod u = r_mod v /\ r_path u = r_path v.
 Definition https_eqv (u v : https_uri) : Prop :=
   lower (h_auth u) = lower (h_auth v) /\ h_path u = h_path v.
+
+(* Https::as_slice(): the URI as written *)
+Definition https_raw (u : https_uri) : bstr := h_scheme u ++ h_auth u ++ h_path u.
+
+(* ------------------------------------------------------------------ *)
+(* paths: PathBuf::push on Unix, components, lexical normalisation *)
+
+Definition is_absolute (p : bstr) : bool := match p with c :: _ => c =? SLASH | [] => false end.
+Definition ends_with_slash (s : bstr) : bool := match s with [] => false | _ => last s 0 =? SLASH end.
+
+(* PathBuf::push: an absolute argument replaces the path; otherwise a separator is added
+   unless the buffer is empty or already ends with one *)
+Definition push (buf p : bstr) : bstr :=
+  if is_absolute p then p
+  else match buf with
+       | [] => p
+       | _ => if ends_with_slash buf then buf ++ p else buf ++ SLASH :: p
+       end.
+
+Definition pushes (root : bstr) (ps : list bstr) : bstr := fold_left push ps root.
+
+Definition comps (s : bstr) : list bstr := split_on SLASH s.
+
+(* lexical resolution with a stack (top first): empty and "." components are skipped,
+   ".." pops; None = ".." with nothing to pop *)
+Fixpoint nstack (st : list bstr) (cs : list bstr) : option (list bstr) :=
+  match cs with
+  | [] => Some st
+  | c :: r =>
+      match c with
+      | [] => nstack st r
+      | _ => if beqb c [DOT] then nstack st r
+             else if beqb c [DOT; DOT] then match st with [] => None | _ :: st' => nstack st' r end
+             else nstack (c :: st) r
+      end
+  end.
+
+Definition norm (s : bstr) : option (list bstr) := option_map (@rev bstr) (nstack [] (comps s)).
+
+(* a component that resolution keeps as it is *)
+Definition normalb (c : bstr) : bool :=
+  match c with [] => false | _ => negb (beqb c [DOT]) && negb (beqb c [DOT; DOT]) end.
+
+(* [p] stays below [root]: the resolved root is a prefix of the resolved path
+   (stacks are top-first, so the root's stack is a suffix) *)
+Definition under (root p : bstr) : Prop :=
+  exists sr out, nstack [] (comps root) = Some sr /\ nstack [] (comps p) = Some (out ++ sr).
+
+Definition underb (root p : bstr) : bool :=
+  match norm root, norm p with
+  | Some r, Some q => Nat.leb (List.length r) (List.length q) &&
+                      forallb (fun x => beqb (fst x) (snd x)) (combine r q)
+  | _, _ => false
+  end.
+
+Lemma split_on_app_sep : forall c a b, split_on c (a ++ c :: b) = split_on c a ++ split_on c b.
+Proof.
+  induction a as [|x a IH]; intros b.
+  - cbn [app split_on]. rewrite N.eqb_refl. reflexivity.
+  - cbn [app split_on]. destruct (x =? c); [rewrite IH; reflexivity|].
+    rewrite IH. pose proof (split_on_nonempty c a). destruct (split_on c a); [congruence|]. reflexivity.
+Qed.
+
+Lemma nstack_app : forall xs ys st,
+  nstack st (xs ++ ys) = match nstack st xs with Some st' => nstack st' ys | None => None end.
+Proof.
+  induction xs as [|c xs IH]; intros ys st; [reflexivity|].
+  cbn [app nstack]. destruct c as [|c0 c']; [apply IH|].
+  destruct (beqb (c0 :: c') [DOT]); [apply IH|].
+  destruct (beqb (c0 :: c') [DOT; DOT]); [destruct st; [reflexivity | apply IH] | apply IH].
+Qed.
+
+Lemma nstack_skip_empty : forall xs ys st, nstack st (xs ++ [] :: ys) = nstack st (xs ++ ys).
+Proof. intros. rewrite !nstack_app. destruct (nstack st xs); reflexivity. Qed.
+
+(* resolution relative to a deeper stack *)
+Lemma nstack_frame : forall cs st out base, nstack st cs = Some out -> nstack (st ++ base) cs = Some (out ++ base).
+Proof.
+  induction cs as [|c cs IH]; intros st out base H; cbn [nstack] in *.
+  - inversion H; reflexivity.
+  - destruct c as [|c0 c']; [apply IH; exact H|].
+    destruct (beqb (c0 :: c') [DOT]); [apply IH; exact H|].
+    destruct (beqb (c0 :: c') [DOT; DOT]).
+    + destruct st as [|t st]; [discriminate|]. cbn [app]. apply IH; exact H.
+    + apply (IH (( c0 :: c') :: st)); exact H.
+Qed.
+
+Lemma nstack_normal : forall cs st, forallb normalb cs = true -> nstack st cs = Some (rev cs ++ st).
+Proof.
+  induction cs as [|c cs IH]; intros st H; [reflexivity|].
+  cbn [forallb] in H. apply andb_true_iff in H. destruct H as [H1 H2].
+  cbn [nstack]. destruct c as [|c0 c']; [discriminate|]. cbn [normalb] in H1.
+  apply andb_true_iff in H1. destruct H1 as [Ha Hb]. apply negb_true_iff in Ha, Hb. rewrite Ha, Hb.
+  rewrite (IH _ H2). cbn [rev]. rewrite <- app_assoc. reflexivity.
+Qed.
+
+Lemma last_snoc : forall (a : bstr) x d, last (a ++ [x]) d = x.
+Proof. intros; apply last_last. Qed.
+
+Lemma comps_push_rel : forall b p st, is_absolute p = false ->
+  nstack st (comps (push b p)) = nstack st (comps b ++ comps p).
+Proof.
+  intros b p st Hp. unfold push. rewrite Hp.
+  destruct b as [|x b'] eqn:Eb.
+  - reflexivity.
+  - rewrite <- Eb. assert (Hne : b <> []) by (subst; discriminate).
+    destruct (ends_with_slash b) eqn:E.
+    + unfold ends_with_slash in E. rewrite Eb in E. rewrite <- Eb in E. apply N.eqb_eq in E.
+      destruct (exists_last Hne) as [b0 [y Hb]]. rewrite Hb in E. rewrite last_snoc in E. subst y.
+      rewrite Hb. rewrite <- app_assoc. cbn [app]. unfold comps.
+      rewrite !split_on_app_sep. cbn [split_on]. rewrite <- app_assoc. cbn [app].
+      symmetry. apply nstack_skip_empty.
+    + unfold comps. rewrite split_on_app_sep. reflexivity.
+Qed.
+
+Lemma comps_pushes_rel : forall ps root st, forallb (fun p => negb (is_absolute p)) ps = true ->
+  nstack st (comps (pushes root ps)) = nstack st (comps root ++ flat_map comps ps).
+Proof.
+  induction ps as [|p ps IH]; intros root st H.
+  - cbn [pushes fold_left flat_map]. rewrite app_nil_r. reflexivity.
+  - cbn [forallb] in H. apply andb_true_iff in H. destruct H as [H1 H2]. apply negb_true_iff in H1.
+    cbn [pushes fold_left flat_map]. fold (pushes (push root p) ps). rewrite (IH _ _ H2).
+    rewrite nstack_app, (comps_push_rel _ _ _ H1), <- nstack_app, <- app_assoc. reflexivity.
+Qed.
+
+(* what stays below the root: relative pushes whose components resolve without popping out *)
+Lemma under_pushes : forall root ps sr out,
+  forallb (fun p => negb (is_absolute p)) ps = true ->
+  nstack [] (comps root) = Some sr ->
+  nstack [] (flat_map comps ps) = Some out ->
+  nstack [] (comps (pushes root ps)) = Some (out ++ sr).
+Proof.
+  intros root ps sr out Hrel Hr Ho.
+  rewrite (comps_pushes_rel _ _ _ Hrel), nstack_app, Hr.
+  apply (nstack_frame _ [] out sr Ho).
+Qed.
+
+(* a common separator splits uniquely when the heads contain none *)
+Lemma app_sep_inj : forall c a a' b b', memb c a = false -> memb c a' = false ->
+  a ++ c :: b = a' ++ c :: b' -> a = a' /\ b = b'.
+Proof.
+  induction a as [|x a IH]; intros a' b b' Ha Ha' H.
+  - destruct a' as [|y a']; cbn [app] in H.
+    + inversion H; auto.
+    + inversion H; subst. unfold memb in Ha'; cbn [existsb] in Ha'. rewrite N.eqb_refl in Ha'. discriminate.
+  - destruct a' as [|y a']; cbn [app] in H.
+    + inversion H; subst. unfold memb in Ha; cbn [existsb] in Ha. rewrite N.eqb_refl in Ha. discriminate.
+    + inversion H; subst. unfold memb in Ha, Ha'; cbn [existsb] in Ha, Ha'.
+      apply orb_false_iff in Ha, Ha'. destruct Ha as [_ Ha], Ha' as [_ Ha'].
+      destruct (IH a' b b' Ha Ha' H2) as [-> ->]. auto.
+Qed.
